@@ -2,7 +2,7 @@
 use super::*;
 use crate::kani_support::*;
 
-// @ob id=C08.1a,C01.6a strength=bounded tier=quick bound="capacity 2, T = u32, one fixed history: create x3, callback, callback removing one (which one symbolic), create x2, callback" fn=backend/resources.rs::{ResourceController::{insert,try_reserve,insert_with_key,len,capacity},ResourceStorage::remove_and_add}
+// @ob id=C08.1a,C01.6a strength=bounded tier=quick timeout=2400 bound="capacity 2, T = u32, one fixed history: create x3, callback, callback removing one (which one symbolic), create x2, callback" fn=backend/resources.rs::{ResourceController::{insert,try_reserve,insert_with_key,len,capacity},ResourceStorage::remove_and_add}
 // @req capacity 2
 // @ens creation succeeds exactly while fewer than `capacity` resources are alive or awaiting removal, otherwise Err(ResourceLimitReached) without panicking; len == created - removed <= capacity at every step; a resource created but not yet picked up counts; remove_and_add never panics; the slot of a removed resource is reusable right after the callback that removed it
 #[kani::proof]
@@ -91,7 +91,7 @@ fn c08_2a_for_each_visits_each_once() {
     core::mem::forget(storage); core::mem::forget(ctl);
 }
 
-// @ob id=C08.2b strength=bounded tier=quick bound="capacity 1, T = u32: create, callback, remove, callback, create again" fn=backend/resources.rs::SelfReferentialResourceStorage::{remove_and_add,remove_unused}
+// @ob id=C08.2b strength=bounded tier=quick timeout=2400 bound="capacity 1, T = u32: create, callback, remove, callback, create again" fn=backend/resources.rs::SelfReferentialResourceStorage::{remove_and_add,remove_unused}
 // @req capacity 1
 // @ens removal empties `keys` together with the arena and frees the slot for the next create; the removed value is handed to the unused ring (no panic)
 #[kani::proof]
@@ -106,6 +106,23 @@ fn c08_2b_self_referential_removal() {
     let k2 = ctl.insert(9).unwrap();
     storage.remove_and_add(|_| false);
     assert!(storage.keys.len() == 1 && storage.resources.get(k2) == Some(&9) && storage.resources.get(k1).is_none() && k1 != k2, "C08.2b: the slot is reused under a new generation; the stale key misses");
+    kani::cover!(true);
+    core::mem::forget(storage); core::mem::forget(ctl);
+}
+
+// @ob id=C08.2c strength=bounded tier=quick timeout=1800 bound="capacity 2, T = u32: create x2, callback, remove both in one callback" fn=backend/resources.rs::SelfReferentialResourceStorage::{remove_and_add,remove_unused}
+// @req two resources adjacent in creation order, both marked for removal before the same callback
+// @ens both are removed by that one callback: keys and arena are empty and both slots are free again (prompt removal, exact count)
+#[kani::proof]
+#[kani::unwind(5)]
+fn c08_2c_adjacent_removals_in_one_callback() {
+    let (mut storage, mut ctl) = SelfReferentialResourceStorage::<u32>::new(2);
+    ctl.insert(1).unwrap();
+    ctl.insert(3).unwrap();
+    storage.remove_and_add(|_| false);
+    storage.remove_and_add(|v| *v % 2 == 1);
+    assert!(storage.keys.len() == 0 && storage.resources.len() == 0, "C08.2c: every resource marked for removal is removed at the next callback");
+    assert!(ctl.len() == 0, "C08.2c: and the reported count drops accordingly");
     kani::cover!(true);
     core::mem::forget(storage); core::mem::forget(ctl);
 }
